@@ -6,6 +6,7 @@ import (
 	"runtime"
 	"strconv"
 	"sync"
+	"sync/atomic"
 	"testing"
 	"time"
 
@@ -41,10 +42,25 @@ func TestThreaded(t *testing.T) {
 	}
 }
 
+// nullStore is a backing store that keeps nothing (the collection only needs its verdict on every write).
+type nullStore struct{}
+
+func (nullStore) Load(context.Context, inmem.LoadHandler) error                  { return nil }
+func (nullStore) Put(context.Context, resource.Type, resource.Resource) error    { return nil }
+func (nullStore) Destroy(context.Context, resource.Type, resource.Pointer) error { return nil }
+
 func threadedRound(t *testing.T, rng *rand.Rand, ring [3]int) {
-	st := state.WrapCore(inmem.NewStateWithOptions(
+	opts := []inmem.StateOption{
 		inmem.WithHistoryInitialCapacity(ring[0]), inmem.WithHistoryMaxCapacity(ring[1]), inmem.WithHistoryGap(ring[2]),
-	)("n1"))
+	}
+
+	// every third round: a backing store that rejects every fourth write - a rejected write must leave no trace in the
+	// collection, so no subscriber may see (or miss) anything because of it
+	if rng.Intn(3) == 0 {
+		opts = append(opts, inmem.WithBackingStore(&vh.FaultyStore{BackingStore: nullStore{}, N: &atomic.Int64{}, Every: 4}))
+	}
+
+	st := state.WrapCore(inmem.NewStateWithOptions(opts...)("n1"))
 
 	ctx, cancel := context.WithCancel(context.Background())
 	defer cancel()
